@@ -309,6 +309,7 @@ VALID_OPTS = [
     'tech:option_example="a b"', 'tech:reporttimes=1', 'tech:timing=1', 'timing=1', 'tech:version', 'version',
     'tech:writegraph=g.jsonl', 'tech:writemodel=m.lp', 'tech:writemodelonly=m2.lp', 'tech:writesolution=s.sol',
     'tech:optionfile=opts.txt', 'outlev=1', 'timing=1 cvt:pre:all=0 objno=1', 'wantsol=1', 'cvt:names = 2', 'debug 1',
+    'tech:option_example=run_{id}', 'tech:option_example={}', 'tech:option_example=a}b{0}', 'tech:writemodel=m{1}.lp', 'tech:option_example=100%s',
 ] + [
     # two valid assignments in one string, every ordered pair of an extreme-but-valid real value and an integer value: the
     # outcome of one assignment must not depend on the one parsed before it (subnormal / underflowing / huge reals, zero, +sign)
@@ -482,6 +483,9 @@ def enumerate_cases(tier):
         C.append(mkcase('mode/-s-e/%s' % mn, 'mode:-s-e:%s' % mn, kind, nl=m.nl(), pre=['-s', '-e'], post=['timing=1'], expect=exp))
         C.append(mkcase('mode/stub.nl/%s' % mn, 'mode:stub-with-.nl:%s' % mn, kind, nl=m.nl(), stubmode='with_ext', expect=exp))
         C.append(mkcase('mode/relative-stub/%s' % mn, 'mode:relative-stub:%s' % mn, kind, nl=m.nl(), stubmode='relative', expect=exp))
+        # dots elsewhere in the stub argument: only a final ".nl" is the extension
+        for smode in ('dot_rel_ext', 'dotted_name', 'dotted_name_ext', 'dotted_dir_ext'):
+            C.append(mkcase('mode/%s/%s' % (smode, mn), 'mode:stub-%s:%s' % (smode, mn), kind, nl=m.nl(), stubmode=smode, expect=exp))
         C.append(mkcase('mode/AMPL-not-second/%s' % mn, 'mode:-AMPL-not-first:%s' % mn, 'badopt', nl=m.nl(), post=['timing=1', '-AMPL'], expect={'msg': '-AMPL'}))
     for fl in ('-=', '-!', '-v', '-?', '-a', '-c'):
         C.append(mkcase('mode/info/%s' % fl, 'mode:info%s' % fl, 'info', nl=oknl, pre=[fl], post=[]))
@@ -575,7 +579,12 @@ def run_once(binary, c, wd, timeout, fsize=None):
     ft = (c.get('fault') or {}).get('type')
     if ft == 'sol-name-too-long':
         stubname = 'a' * 252          # 'a'*252 + '.nl' = 255 = NAME_MAX ; + '.sol' = 256 > NAME_MAX
+    if sm in ('dotted_name', 'dotted_name_ext'):
+        stubname = 'm.v2'             # a dot inside the stub name itself
     stubp = os.path.join(wd, stubname)
+    if sm == 'dotted_dir_ext':
+        os.makedirs(os.path.join(wd, 'run.1'))
+        stubp = os.path.join(wd, 'run.1', stubname)
     if sm == 'too_long':
         # the directories are not created: every open() of the path fails with ENAMETOOLONG (> PATH_MAX) anyway
         stubp = os.path.join(*([wd] + ['d' * 200] * 21 + ['m']))
@@ -629,8 +638,10 @@ def run_once(binary, c, wd, timeout, fsize=None):
     argv = [binary] + list(c['pre'])
     if sm == 'none':
         pass
-    elif sm == 'with_ext':
+    elif sm in ('with_ext', 'dotted_name_ext', 'dotted_dir_ext'):
         argv.append(stubp + '.nl')
+    elif sm == 'dot_rel_ext':
+        argv.append('./' + stubname + '.nl')
     elif sm == 'relative':
         argv.append(stubname)
     elif sm == 'empty_stub':
